@@ -99,6 +99,18 @@ impl Pattern for MatrixPattern {
                 }
             }
         }
+        // A variable that occurs only once is referenced by no constraint yet:
+        // force its cell to be bound, so that it must exist in the host.
+        let mut unreferenced: Vec<_> = var_to_pos
+            .values()
+            .filter(|&pos| !constraints.iter().any(|c| c.required_bindings().contains(pos)))
+            .copied()
+            .collect();
+        unreferenced.sort();
+        for pos in unreferenced {
+            constraints
+                .push(Constraint::try_new(CharacterPredicate::BindingEq, vec![pos, pos]).unwrap());
+        }
         if constraints.is_empty() {
             // We add one (dummy) constraint for the empty pattern, forcing
             // the matcher to bind the first character to a position in the
